@@ -26,6 +26,22 @@ from pedal.sandbox.result import SandboxResult
 from pedal.sandbox.tracer import TRACER_STYLES
 
 
+def _has_literal_repr(value):
+    """ Whether ``repr(value)`` is source code that evaluates back to the value;
+    e.g., ``nan``, ``inf`` and arbitrary objects are not. """
+    if value is None or isinstance(value, (bool, int, str, bytes)):
+        return True
+    if isinstance(value, float):
+        return value == value and value not in (float('inf'), float('-inf'))
+    if isinstance(value, complex):
+        return _has_literal_repr(value.real) and _has_literal_repr(value.imag)
+    if type(value) in (list, tuple, set, frozenset):
+        return all(_has_literal_repr(item) for item in value)
+    if type(value) is dict:
+        return all(_has_literal_repr(k) and _has_literal_repr(v) for k, v in value.items())
+    return False
+
+
 class Sandbox:
     """
     Args:
@@ -725,7 +741,7 @@ class Sandbox:
         """
         if isinstance(value, SandboxVariable):
             return value.name
-        if len(repr(value)) <= self.MAXIMUM_TEMPORARY_LENGTH:
+        if len(repr(value)) <= self.MAXIMUM_TEMPORARY_LENGTH and _has_literal_repr(value):
             return repr(value)
         key = '_temporary_{}_{}'.format(category, name)
         if key in self.data:
